@@ -36,7 +36,10 @@ pub fn run_check(ctx: &Ctx) -> Outcome {
         "C02" => check_e1(ctx, Prop::C02, &mut out, 1200, 30000),
         "C03" => check_e1(ctx, Prop::C03, &mut out, 1500, 40000),
         "C04" => check_e1(ctx, Prop::C04, &mut out, 1500, 40000),
-        "C05" => check_e1(ctx, Prop::C05, &mut out, 1500, 40000),
+        "C05" => {
+            check_c05(ctx, &mut out);
+            run_nostd_child(ctx, &mut out);
+        }
         "C06" => check_e1(ctx, Prop::C06, &mut out, 1500, 40000),
         "C07" => check_e1(ctx, Prop::C07, &mut out, 1500, 40000),
         "C08" => check_e1(ctx, Prop::C08, &mut out, 1500, 40000),
@@ -45,7 +48,11 @@ pub fn run_check(ctx: &Ctx) -> Outcome {
         "C12" => check_e1(ctx, Prop::C12, &mut out, 1500, 40000),
         "C14" => check_e1(ctx, Prop::C14, &mut out, 1000, 20000),
         "C15" => check_e1(ctx, Prop::C15, &mut out, 1500, 40000),
-        "C11" => check_tinylfu(ctx, crate::e7::E7Prop::C11, &mut out, 1500, 40000, "generated TinyLFU configurations (size, samples, false-positive ratio, key hasher) x operation sequences over increment / increment_hashed_key / increment_keys / increment_hashed_keys / try_reset / clear / estimate* / contains* / lt..eq with raw hashes from a small alphabet plus 0, u64::MAX, 1<<32, 1<<63 and random values; 30% of the cases use a single key (exact equality with the aged-count model); non-trivial = at least one reset happened and at least one counter > 1 was halved; distinct by FNV-64 of the serialised case"),
+        "C11" => {
+            run_nostd_child(ctx, &mut out);
+            check_tinylfu_c11(ctx, &mut out)
+        }
+        "C11x" => check_tinylfu(ctx, crate::e7::E7Prop::C11, &mut out, 1500, 40000, "generated TinyLFU configurations (size, samples, false-positive ratio, key hasher) x operation sequences over increment / increment_hashed_key / increment_keys / increment_hashed_keys / try_reset / clear / estimate* / contains* / lt..eq with raw hashes from a small alphabet plus 0, u64::MAX, 1<<32, 1<<63 and random values; 30% of the cases use a single key (exact equality with the aged-count model); non-trivial = at least one reset happened and at least one counter > 1 was halved; distinct by FNV-64 of the serialised case"),
         "C20" => check_sampled(ctx, crate::e7::E7Prop::C20, &mut out, 3000, 60000, "generated SampledLFU sequences (increment*, update*, remove*, clear, update_max_cost, fill_sample, room_left) over hashed keys from a small alphabet plus extremes and signed costs (mostly small, tail to +-2^40); non-trivial = an increment on an already tracked key was followed by remove or room_left; distinct by FNV-64 of the serialised case"),
         "C13" => check_c13(ctx, &mut out, 1000, 25000),
         "C16" => {
@@ -64,6 +71,10 @@ pub fn replay(prop: &str, engine: &str, case: &Value) -> Result<Option<Violation
             let p = prop_of(prop).ok_or_else(|| format!("unknown property {prop}"))?;
             let c: Case = serde_json::from_value(case.clone()).map_err(|e| e.to_string())?;
             Ok(exec_case(&c, p).violation)
+        }
+        "e6" => {
+            let c: crate::e6::Call = serde_json::from_value(case.clone()).map_err(|e| e.to_string())?;
+            Ok(crate::e6::judge(&c).1)
         }
         "c13" => {
             let c: crate::multi::C13Case = serde_json::from_value(case.clone()).map_err(|e| e.to_string())?;
@@ -116,4 +127,55 @@ pub fn write_evidence(ctx: &Ctx, out: &Outcome, wall_s: f64) -> String {
     });
     let _ = std::fs::write(&path, serde_json::to_string_pretty(&body).unwrap());
     path
+}
+
+const C11_RULE: &str = "generated TinyLFU configurations (size, samples, false-positive ratio, key hasher) x operation sequences over increment / increment_hashed_key / increment_keys / increment_hashed_keys / try_reset / clear / estimate* / contains* / lt..eq with raw hashes from a small alphabet plus 0, u64::MAX, 1<<32, 1<<63 and random values; 30% of the cases use a single key (exact equality with the aged-count model); non-trivial = at least one reset happened and at least one counter > 1 was halved; distinct by FNV-64 of the serialised case; run in the std and in the no_std build";
+
+fn check_tinylfu_c11(ctx: &Ctx, out: &mut Outcome) {
+    check_tinylfu(ctx, crate::e7::E7Prop::C11, out, 1500, 40000, C11_RULE);
+}
+
+/// C05 / C11 quantify over both feature configurations: run the no_std build of this harness
+/// as a child (same check, same seed, no evidence file) and fold its report into ours.
+pub fn run_nostd_child(ctx: &Ctx, out: &mut Outcome) {
+    if cfg!(feature = "nostd") {
+        return;
+    }
+    let bin = match std::env::var("VH_NOSTD_BIN") {
+        Ok(b) => b,
+        Err(_) => {
+            out.inconclusive = Some("VH_NOSTD_BIN not set: the no_std build of the harness was not run".into());
+            return;
+        }
+    };
+    let tier = if ctx.tier == Tier::Quick { "quick" } else { "thorough" };
+    let r = std::process::Command::new(&bin)
+        .args(["check", &ctx.id, "--tier", tier, "--seed", &ctx.seed.to_string(), "--verif-dir", &ctx.verif_dir, "--no-evidence", "--emit-json", "--scale", &ctx.scale.to_string()])
+        .output();
+    match r {
+        Err(e) => out.inconclusive = Some(format!("cannot run {}: {}", bin, e)),
+        Ok(o) => {
+            let text = String::from_utf8_lossy(&o.stdout).to_string();
+            let mut cov = None;
+            for line in text.lines() {
+                if let Some(j) = line.strip_prefix("SUBRESULT ") {
+                    cov = serde_json::from_str::<Value>(j).ok();
+                }
+                if line.starts_with("KNOWN-FINDING:") && !out.known_lines.iter().any(|l| l == line) {
+                    out.known_lines.push(line.to_string());
+                }
+            }
+            match (o.status.code(), cov) {
+                (Some(0), Some(c)) | (Some(1), Some(c)) => {
+                    if let Some(vs) = c.get("violations").and_then(|v| v.as_array()) {
+                        for v in vs {
+                            out.violations.push((v[0].as_str().unwrap_or("").to_string(), format!("[no_std build] {}", v[1].as_str().unwrap_or(""))));
+                        }
+                    }
+                    out.coverage.insert("no_std_build".into(), c.get("coverage").cloned().unwrap_or(Value::Null));
+                }
+                (code, _) => out.inconclusive = Some(format!("no_std child exited with {:?}: {}", code, text.lines().last().unwrap_or(""))),
+            }
+        }
+    }
 }
